@@ -3,14 +3,14 @@ from props._common import COMMON_TB
 PROP = dict(
     title="Every program accepted by the checker compiles to bytecode",
     lean_module="AbraProofs.Properties.C03",
-    required_theorems=["C03_offsets_complete", "C03_offsets_complete_own_assign", "C03_offsets_assign_counterexample",
+    required_theorems=["C03_offsets_complete", "C03_offsets_complete_task", "C03_offsets_complete_own_assign", "C03_checker_rejects_captured_assign",
                        "C03_loop_ctx_agree", "C03_loop_ctx_rejects_break_in_lambda"],
     harness_bin="c03",
     # the compared observable (per lambda/task: number of captures and of locals, read off the real assembly)
     # is what the analysis computes; a difference means the model is no longer the code.  A failing *input* of
     # the property is an accepted program on which compile_bytecode panics: reported through spec_fail.
     mismatch_is_violation=False,
-    rule="10 hand-written nesting programs (task in fn, lambda in lambda, task in lambda in fn, lambda in task, loop in lambda "
+    rule="24 programs assigning a captured variable (lambda/task/inner lambda/function-local x six operators) that must be rejected with a diagnostic; 10 hand-written nesting programs (task in fn, lambda in lambda, task in lambda in fn, lambda in task, loop in lambda "
          "in loop, every compound assignment form, let in match scrutinee / in assignment target, capture only in scrutinee / only "
          "as assignment target) and quick 6x90 / thorough 6x2500 generated programs: tiers F0-F3 plus two nesting streams "
          "(functions, lambdas nested to depth 3, tasks, while/for with break/continue, =, +=, -=, *=, /=, %= on variables, fields "
@@ -26,14 +26,14 @@ PROP = dict(
         "name resolution is done by the harness (scoping as in the generator), not by the real resolver",
         "hook 08c41c5 (optimizer trace) used read-only",
     ],
-    assumptions=["C03_offsets_complete excludes assignment to a variable the function neither owns nor reads (D20, recorded under C20)",
+    assumptions=["for named functions and <main> (no enclosing function) that every assigned local is the function's own is a fact of name resolution taken as hypothesis (C03_offsets_complete_own_assign); for lambdas and tasks it follows from the checker model (fdfd074)",
                  "void-typed binders own no slot and are absent from the resolved AST; the nesting streams generate none"],
     design_ref="DESIGN.md §6 C03",
     level_text="Theorems about the analysis-table model (every offset-table lookup of every function body has an entry; the checker's and "
                "the code generator's loop contexts agree) + differential search for accepted-but-panicking programs over a nesting generator.",
     level_note="partial: only the offset tables and the loop stacks are modelled; the other panic sites of translate_bytecode.rs "
                "(unreachable!/panic!/unimplemented!) are reached only through the tie. The model was updated to the repaired code "
-               "(D16/D17/D36/D37/D41, d50b96e, 29b0667 compound-assignment temporaries).",
+               "(D16/D17/D36/D37/D41, d50b96e, 29b0667 compound-assignment temporaries, fdfd074 captured-assignment rule).",
     technique="Lean 4 mutual structural induction over a hand-written analysis model + differential correspondence (table sizes from real assembly, accept=>compile search)",
     timeout=3000,
 )
